@@ -138,3 +138,44 @@ def distribution(results):
             d["events"] += len(x["ev"])
             d["max_wall_ms"] = max(d["max_wall_ms"], x.get("wall_ms", 0))
     return d
+
+PINNED = ["C22_node_iff_running", "C22_overdue_signalled", "C22_syscall_never_suspended", "C22_results_unchanged",
+          "C22_refuted_concurrent_submit", "C22_refuted_scan_during_update", "C22_holds_outside"]
+RULE = ("harness built with the crate's `preemptive` feature; trace cases run one real Scheduler on the harness "
+        "thread with the real monitor thread and real SIGURG: kinds busy (a body that computes until a sibling has "
+        "run, 0-2 further siblings: needs a preemption, the sibling must complete first), busy2 (two busy bodies in "
+        "a row), syscall (30/50/80 ms of wall time spent inside a system-call state, then a sibling), short (1-5 "
+        "bodies of work / yield / syscall sections); stress cases run 1-16 scheduler threads x 50-400 short "
+        "yielding coroutines without recording; non-trivial = the trace shows a preemption or a system-call "
+        "section, or a stress run did not end cleanly; distinct = distinct case")
+TRUSTED = ["hook H6 (verif::monitor_nodes: read-only copy of Monitor::notify_queue) read by a listener that is "
+           "registered after the crate's MonitorListener",
+           "harness bookkeeping (event log) runs with SIGURG blocked, so that signals land only in the computing "
+           "parts of a body; bodies are interpreted from instruction lists, spin_ms / spin_flag / set_flag count as "
+           "work 0",
+           "the lockstep replay (MonitorOracle.replay) that decides whether an observed trace is a trace of the model"]
+ASSUMPTIONS = ["signal delivery is an atomic action between two steps of a thread, and never inside the listener's own "
+               "set operation; the register-level context switch of the handler is corosensei's (trusted)",
+               "the unsynchronised HashSet is modelled as read-then-write-back of the whole set: lost operations "
+               "are representable, memory corruption is not",
+               "coroutines are pinned to their scheduler thread in the model (no work stealing between the traced "
+               "thread and others); time is a clock that only [ATick] advances"]
+LEVEL_TEXT = ("Unbounded theorems (every schedule of thread steps, clock ticks, monitor scans and signal deliveries, "
+              "any number of scheduler threads and coroutines, any bodies) about the executable model Misc/Monitor.v of "
+              "the listener protocol, the monitor scan and the signal handler: with synchronised set operations a "
+              "thread has a node exactly while its coroutine is Running; an overdue Running coroutine is signalled by "
+              "the next scan, suspended and queued behind its ready siblings; no coroutine is ever suspended in a "
+              "system-call state; results do not depend on the signals. For the code as it is (unsynchronised set) "
+              "the refutation witness (a lost insert with two threads) and what holds outside it are proved. The model "
+              "is tied to the repository by replaying, inside Coq, every trace observed on a real Scheduler with the "
+              "real monitor thread and real SIGURG (state changes with the H6 node flag, the bodies' own marks) "
+              "against the model in lockstep; the oracle is evaluated on the observed trace.")
+LEVEL_NOTE = ("Partial by nature: real signal delivery, the handler's context switch and wall-clock timing are outside "
+              "any Gallina model; traces are observed on ONE scheduler thread, and the demand that a preemption "
+              "happens is made robust by bodies that compute until their sibling has run (cap 3 s) instead of a fixed "
+              "100 ms. Finding #25 (monitor_set_unsynchronised) is KNOWN and reproduces: with >= 2 scheduler threads "
+              "the process dies with SIGSEGV or hangs (stress cases); the model shows only its lost-update "
+              "consequence. Not proved: that the model's own traces satisfy the trace oracle as one theorem (the "
+              "clauses are proved as state / log invariants instead). No axioms (closed under the global context).")
+TECHNIQUE = ("machine-checked proof (Coq, state invariant over an interleaving model with atomic and two-step set "
+             "operations) + lockstep replay of real traces with real signals inside Coq + multi-thread stress")
